@@ -1194,6 +1194,39 @@ func Harness_seeded() {
 	run(b, args, len(args))
 }
 
+// ---- two-map builtins on maps with several entries
+
+// Harness_twomaps applies rename-keys and merge to a data map that is any
+// subset of four fixed keys and a second map in which each of three of those
+// keys is absent or mapped to one of five keys: swaps, rotations and chains
+// of renamings are all inside this space.
+func Harness_twomaps() {
+	name := lib.Pick("fn", []string{"rename-keys", "merge"})
+	var b builtin
+	for _, t := range Table {
+		if t.name == name {
+			b = t
+		}
+	}
+	ka, kb, kc, kd := NewKeyword("a"), NewKeyword("b"), NewKeyword("c"), NewKeyword("d")
+	dataKeys := []string{ka, kb, kc, "s"}
+	targets := []MalType{ka, kb, kc, kd, "s"}
+	data := map[string]MalType{}
+	for i, k := range dataKeys {
+		if vrt.Bool("d" + itoa(i)) {
+			data[k] = i + 1
+		}
+	}
+	second := map[string]MalType{}
+	for i, k := range dataKeys[:3] {
+		c := vrt.Concrete(vrt.Choice("r"+itoa(i), len(targets)+1))
+		if c < len(targets) {
+			second[k] = targets[c]
+		}
+	}
+	run(b, []MalType{HashMap{Val: data}, HashMap{Val: second}}, 2)
+}
+
 // ---- compositions: the result of one builtin is the collection argument of another
 
 func Harness_compose() {
